@@ -122,8 +122,19 @@ def run_one(prop, verif_seed, i, keep_ops=False, max_steps=None, banned=(), tier
     return r
 
 
-def replay_ops(prop, ops):
-    """Execute a recorded op list in a fresh world (no generator, no PRNG)."""
+def replay_ops(prop, ops, prelude=()):
+    """Execute a recorded op list in a fresh world (no generator, no PRNG).  `prelude` is a list
+    of op lists that are executed first, each in its own world, in this same process: the runs
+    that preceded the failing one in its worker, needed only when the library under test carries
+    process-global state from one run into the next."""
+    for pl in prelude:
+        wp = World([], None)
+        wp.reset_globals()
+        try:
+            for op in pl:
+                wp.execute(op)
+        finally:
+            wp.reset_globals()
     w = World([ORACLES[prop]()], None)
     w.reset_globals()
     try:
@@ -134,3 +145,12 @@ def replay_ops(prop, ops):
     finally:
         w.reset_globals()
     return w
+
+
+def chunk_ops(args):
+    """Op lists of runs start..upto (inclusive), regenerated in this (fresh) process."""
+    prop, verif_seed, start, upto, banned, tier = args
+    out = []
+    for i in range(start, upto + 1):
+        out.append(run_one(prop, verif_seed, i, keep_ops=True, banned=banned, tier=tier).ops)
+    return out
